@@ -61,7 +61,7 @@ let () =
   f2 "with_destructed" (fun w b -> r (with_destructed (c w) (zb b)));
   f2 "with_weaked" (fun w b -> r (with_weaked (c w) (zb b)));
   f1 "alloc_word" (fun n -> r (alloc_word (c n)));
-  f2 "reclaim_now" (fun cur a -> b2z (reclaim_now (c cur) (c a)));
+  f3 "m_le" (fun m a b -> b2z (m_le ePOCH_WIDTH (c m) (c a) (c b)));
   reg "merged" (function [cur; a; b; d] -> r (merged (c cur) (c a) (c b) (c d)) | _ -> failwith "arity merged");
   f2 "m_trans" (fun m v -> r (m_trans ePOCH_WIDTH (c m) (c v)));
   f2 "m_inver" (fun m v -> r (m_inver ePOCH_WIDTH (c m) (c v)));
